@@ -69,6 +69,19 @@ let run_lru id maxsize elast ops =
 
 let cur_id = ref ""
 
+(* C16: the MPMC ring buffer, sequential op sequences *)
+let run_ring size ops =
+  let r = ref (ring_init (nat_of_int size)) in
+  let out = Buffer.create 64 in
+  List.iter (fun o ->
+    let op = if o.[0] = 'u' then RPush (int_of_string (String.sub o 1 (String.length o - 1))) else RPop in
+    let (a, r') = ring_step op !r in
+    r := r';
+    Buffer.add_string out (match a with
+      | PushOk -> " 1" | PushFull -> " 0" | PopEmpty -> " -" | Spin -> " SPIN"
+      | PopOk (Some v) -> " " ^ string_of_int v | PopOk None -> " none")) ops;
+  string_of_int (List.length ops) ^ Buffer.contents out
+
 let lcg = ref 1
 let rnd n = lcg := (!lcg * 1103515245 + 12345) land 0x3fffffff; (!lcg lsr 8) mod n
 
@@ -114,11 +127,19 @@ let parse_label (t : string) : label =
 let handle op args = match op, args with
   | "lfru", size :: tw :: ops -> run_lfru !cur_id (int_of_string size) (int_of_string tw) ops
   | "lru", maxsize :: elast :: ops -> run_lru !cur_id (int_of_string maxsize) (int_of_string elast) ops
+  | "ring", size :: ops -> run_ring (int_of_string size) ops
   | "lrumt", _ -> "ok"
   | "powhit", _ -> "ok"
   | "pow", _ :: _ :: _ :: _ :: ops -> "ok " ^ string_of_int (List.length ops)
-  | "check", workers :: seed :: _ :: spec :: dup :: stopmode :: rounds :: _ ->
+  | "check", workers :: seed :: _ :: spec :: dup :: stopmode :: rounds :: rest ->
     let w = max 1 (int_of_string workers) in
+    (* queue capacity = upper_power_of_two(maxATVs + maxVTBs + maxVbkBlocks) *)
+    let cap = (match rest with
+      | _ :: lim :: _ when lim <> "0" ->
+        (match List.map int_of_string (String.split_on_char '/' lim) with
+         | [a; b; c] -> let sum = a + b + c in let p = ref 1 in while !p < sum do p := 2 * !p done; nat_of_int !p
+         | _ -> bigcap)
+      | _ -> bigcap) in
     let spec = if spec = "-" then "" else spec in
     let dup = (dup = "1") in
     let tl = tasks_of_spec spec dup in
@@ -126,7 +147,7 @@ let handle op args = match op, args with
     let map = Array.of_list (List.map snd tl) in
     let has_dup = dup && List.exists (fun (v, _) -> v) tl in
     lcg := (int_of_string seed) land 0xffffff + 17;
-    let s = ref (init (nat_of_int w) bigcap) in
+    let s = ref (init (nat_of_int w) cap) in
     let out = ref [] in
     let rounds = int_of_string rounds in
     for r = 0 to rounds - 1 do
@@ -139,7 +160,7 @@ let handle op args = match op, args with
           verdict_str map v
         | MThrow -> "throw" | _ -> "stuck") in
       out := v :: !out;
-      if (stopmode = "1" || stopmode = "2") && r + 1 < rounds then s := stop_restart w !s
+      if (stopmode = "1" || stopmode = "2" || (stopmode = "3" && r mod 7 = 6)) && r + 1 < rounds then s := stop_restart w !s
     done;
     String.concat ";" (List.rev !out)
   | "replay", workers :: v0 :: labels ->
